@@ -662,6 +662,10 @@ impl ast::SetComprehension {
 
 impl ast::Capture {
     fn evaluate_lazy(&self, exec: &mut ExecutionContext) -> Result<LazyValue, ExecutionError> {
+        // captures in attribute shorthands are not resolved by the checker
+        if self.quantifier == tree_sitter::CaptureQuantifier::Zero {
+            return Err(ExecutionError::UndefinedCapture(format!("{}", self)));
+        }
         Ok(Value::from_nodes(
             exec.graph,
             exec.mat
